@@ -19,6 +19,14 @@ def queries(ctx):
         q.models = ("vlibc.c", "vfs.c", "vsys.c")
         q.defines = tuple(q.defines) + ("HAVE_VSYS=1",)
         qs.append(q)
+    # faults while GATHERING data: every passwd/group/tty/cwd/hostname/time lookup and every procfs open/read may fail
+    import dataclasses as _dc, importlib as _il, runner as _r
+    for modname, pat in (("C12", r"ds_(username|eusername|group|egroup|tty_uid|tty_username|cwd|hostname|login|datetime|timestamp)$"), ("C15", r"tree_d2")):
+        sub = dict(ctx); sub["kf"] = _r.finding_keys(modname)
+        for q in _il.import_module("props." + modname).queries(sub):
+            import re as _re
+            if _re.search(pat, q.name) and q.expect == "pass":
+                qs.append(_dc.replace(q, name="gather_" + q.name))
     # overlong ident / path template with error logging on: the error report must not re-enter the failing output without bound
     import dataclasses
     from runner import Unit
